@@ -7,15 +7,64 @@ import SgVerif.C14.RefineBar
 namespace SgVerif.C14
 open SgVerif.McRef
 
-/-- hypothesis of the partial theorems: the actor does not `lock()` a (non-recursive) mutex that it already owns -/
-def stepOK (o : OState) (i : Nat) : Prop :=
-  ∀ m, pendOf o.s i = some (.mutexAsyncLock m) → (o.w.mutexes m).owner ≠ some i
+/-- `Mutex::lock` in one simcall is sound with NO hypothesis on the owner: when the caller already owns the
+(non-recursive) mutex, `lock_async` queues it behind itself and `wait_for` (which tests `granted_`) does not answer —
+in the LTS MUTEX_ASYNC_LOCK is executed and the MUTEX_WAIT is not enabled (self-deadlock, as under the checker);
+otherwise `lock_sound`. -/
+theorem lock_sound_full {o : OState} {i m : Nat} {a : Actor} (hR : R o) (hI : Inv o) (ha : o.s.actors[i]? = some a)
+    (herr : o.s.err = 0) (hp : a.pend = some (.mutexAsyncLock m))
+    {o' : OState} {path : Path} (h : oLock o i a m = some (o', path)) :
+    execPath o.s path = some o'.s ∧ R o' ∧ Inv o' := by
+  have hnrec := hI.sy.nrec m
+  by_cases hne : (o.w.mutexes m).owner = some i
+  · -- the owner locks again: queued behind itself, MUTEX_WAIT not enabled (self-deadlock, as under the checker)
+    have hpid := hI.lt.pid i a ha
+    have hops := hI.lt.ops i a ha
+    by_cases hm : m < o.s.mutexes.length
+    · simp only [oLock, hm, ↓reduceIte, sync_step_lock, sync_lock_busy _ i i hnrec hne] at h
+      have hx0 : o.s.mutexes[m]? = some (o.s.mutexes[m]) := List.getElem?_eq_getElem hm
+      have hx := hR.rm m _ hx0
+      obtain ⟨hlab, hstep⟩ := lts_asyncLock ha herr hpid hp
+      have hpi : pendOf o.s i = some (.mutexAsyncLock m) := by rw [pendOf_of_get ha, hp]
+      have hopen := hole_open hI.lt hpi rfl
+      have hqM : queueM o.s m = (o.w.mutexes m).queue.map (·.issuer) := by
+        simp [queueM, hx0, hx, absM]
+      simp only [Sync.optOut, wakeAll, pathOf, List.foldl, List.map, upd_same, Option.some.injEq, Prod.mk.injEq] at h
+      obtain ⟨rfl, rfl⟩ := h
+      have hs2 : setPend (setM o.s m (absM { o.w.mutexes m with
+            queue := (o.w.mutexes m).queue ++ [{ issuer := i, waited := true, res := .unit }] })) i a (.mutexWait m)
+          = step o.s i 0 := by
+        rw [hstep]; simp only [setM]
+        congr 2
+        apply modifyAt_congr _ _ _ _ _ hx0
+        rw [hx]; simp [mutexLockAsync, absM, hne]
+      refine ⟨?_, ?_, ?_, ?_⟩
+      · rw [execPath_cons hlab, hs2]; rfl
+      · exact R_setM hR rfl rfl rfl
+      · refine SInv_setM hI.sy (by simpa using hnrec) ?_
+        intro q hq
+        rcases List.mem_append.mp hq with h' | h'
+        · exact hI.sy.mwaited m q h'
+        · simp at h'; subst h'; rfl
+      · have hact1 : (setPend o.s i a (.mutexWait m)).actors
+            = modifyAt o.s.actors i (fun _ => { a with pend := some (.mutexWait m) }) := rfl
+        have h1 : LInvH (setPend o.s i a (.mutexWait m)) [i] :=
+          act_set hopen hact1 (fun p => queueOf_actors _ _ rfl rfl rfl p) ha (by simp) hpid hops
+        have h2 := obj_push (s' := setPend (setM o.s m (absM { o.w.mutexes m with
+            queue := (o.w.mutexes m).queue ++ [{ issuer := i, waited := true, res := .unit }] })) i a (.mutexWait m))
+          (P := .mutexWait m) h1 rfl (by
+            intro p
+            have e1 : ∀ (X : State) (q : Pend), queueOf (setPend X i a (.mutexWait m)) q = queueOf X q :=
+              fun X q => queueOf_actors _ _ rfl rfl rfl q
+            rw [e1, e1, e1, queueOf_setM _ _ _ hm]
+            by_cases e : p = .mutexWait m
+            · subst e; simp [queueOf, hqM, absM]
+            · simp [e]) (by simp) (pendOf_upd_eq hact1 ha)
+        simpa using h2
+    · simp [oLock, hm] at h
+  · exact lock_sound hR hI ha herr hp hne h
 
-def NoRelock : OState → List Nat → Prop
-  | _, [] => True
-  | o, i :: h => stepOK o i ∧ ∀ o1 p1, ostep o i = some (o1, p1) → NoRelock o1 h
-
-theorem ostep_sound {o o' : OState} {i : Nat} {path : Path} (hR : R o) (hI : Inv o) (hok : stepOK o i)
+theorem ostep_sound {o o' : OState} {i : Nat} {path : Path} (hR : R o) (hI : Inv o)
     (h : ostep o i = some (o', path)) : execPath o.s path = some o'.s ∧ R o' ∧ Inv o' := by
   unfold ostep at h
   cases ha : o.s.actors[i]? with
@@ -37,7 +86,7 @@ theorem ostep_sound {o o' : OState} {i : Nat} {path : Path} (hR : R o) (hI : Inv
         simp only [hp] at h
         cases p <;> simp only [covPend, queueOf, List.not_mem_nil, or_false, Bool.false_eq_true] at hpok <;>
           try (simp at h; done)
-        case mutexAsyncLock m => exact lock_sound hR hI ha herr hp (hok m hpi) h
+        case mutexAsyncLock m => exact lock_sound_full hR hI ha herr hp h
         case mutexTrylock m => exact trylock_sound hR hI ha herr hp h
         case mutexUnlock m => exact unlock_sound hR hI ha herr hp h
         case semAsyncLock k => exact acquire_sound hR hI ha herr hp h
@@ -57,11 +106,11 @@ theorem execPath_append {s s' : State} : ∀ {p1 : Path} (p2 : Path), execPath s
     · rename_i hl; simp only [hl, ↓reduceIte]; exact ih p2 h
     · cases h
 
-theorem orun_sound : ∀ (h : List Nat) {o o' : OState} {path : Path}, R o → Inv o → NoRelock o h →
+theorem orun_sound : ∀ (h : List Nat) {o o' : OState} {path : Path}, R o → Inv o →
     orun o h = some (o', path) → execPath o.s path = some o'.s ∧ R o' ∧ Inv o'
-  | [], o, o', path, hR, hI, _, hr => by
+  | [], o, o', path, hR, hI, hr => by
     simp [orun] at hr; obtain ⟨rfl, rfl⟩ := hr; exact ⟨rfl, hR, hI⟩
-  | i :: h, o, o', path, hR, hI, hn, hr => by
+  | i :: h, o, o', path, hR, hI, hr => by
     simp only [orun] at hr
     cases h1 : ostep o i with
     | none => simp [h1] at hr
@@ -74,8 +123,8 @@ theorem orun_sound : ∀ (h : List Nat) {o o' : OState} {path : Path}, R o → I
         obtain ⟨o2, p2⟩ := r2
         simp only [h2, Option.some.injEq, Prod.mk.injEq] at hr
         obtain ⟨rfl, rfl⟩ := hr
-        obtain ⟨e1, hR1, hI1⟩ := ostep_sound hR hI hn.1 h1
-        obtain ⟨e2, hR2, hI2⟩ := orun_sound h hR1 hI1 (hn.2 o1 p1 h1) h2
+        obtain ⟨e1, hR1, hI1⟩ := ostep_sound hR hI h1
+        obtain ⟨e2, hR2, hI2⟩ := orun_sound h hR1 hI1 h2
         exact ⟨by rw [execPath_append p2 e1]; exact e2, hR2, hI2⟩
 
 /-! ### a stuck one-simcall world is a deadlock state of the LTS -/
